@@ -38,6 +38,19 @@ theorem npz_dispatch_matches_reader :
     ∀ c ∈ Cls.all, npzDispatch (decide (Key.color_space ∈ Gen.metaKeys c)) (decide (c = .scalarImage)) = Gen.npzClass c := by
   decide
 
+/-- the keyword handling of the subclass constructors in the model (`construct`: forced flags) is the code's: the keys
+each subclass constructor pops from `kwargs` before delegating (AST) are exactly the forced ones; the base constructor
+pops only keys it consumes itself (`origin`, `reference_date`, `time`), and since `imread_from_npz` passes the stored
+dictionary as `**metadata` (a fresh dict per call) no pop reaches the stored metadata -/
+theorem popped_keys_are_the_forced_ones :
+    (∀ c ∈ [Cls.scalarImage, Cls.opticalImage], ∀ k, k ∈ Gen.popped c ↔ k ∈ forcedKeys c) ∧
+    (∀ k ∈ Gen.popped .image, k ∈ Gen.consumed .image ∧ k ∈ Gen.metaKeys .image) := by
+  constructor
+  · intro c hc k
+    simp only [List.mem_cons, List.not_mem_nil, or_false] at hc
+    rcases hc with rfl | rfl <;> cases k <;> simp [Gen.popped, forcedKeys]
+  · decide
+
 /-- **Every constructed image satisfies the invariant** the round trip relies on (relative time is the given one
 or the one derived from the dates; the flags forced by `ScalarImage` / `OpticalImage`; upper-case colour space). -/
 theorem constructor_establishes_inv {V : Type} (S : Sem V) (ok : S.OK) (c : Cls) (kw : Kw V)
@@ -125,6 +138,48 @@ theorem correct_reads_are_restored :
 theorem load_restores_used_state :
     ∀ c ∈ Gen.Corr.all, Gen.implementsSave c = true → Gen.writesClassName c = true →
       ∃ a ∈ Gen.loadStores c, a ∈ Gen.correctReads c := by decide
+
+/-- **reload_equiv**: for each of the five savable corrections, the state `correct_array` depends on is the same after
+`save` → `read_correction` (no-argument constructor, then `load`, incl. `_init_from_config`) as before — hence the
+output function is the same — for every state the class's own initialisation can produce (`Inv`), under the external
+contract that np.savez / pickle return each stored value unchanged. Caches are memoisation and not part of the state. -/
+theorem reload_equiv {V : Type} (S : CSem V) :
+    (∀ s : TypeState V, s.save.load = s) ∧
+    (∀ s : DriftState V, s.Inv S → s.save.load S = s) ∧
+    (∀ s : CurvState V, s.save.load S = s) ∧
+    (∀ s : IllumState V, s.save.load = s) ∧
+    (∀ (cfg : ColorCfg V) (sw : V), (ColorState.ofConfig S cfg sw).save.load S = ColorState.ofConfig S cfg sw) := by
+  refine ⟨fun s => rfl, fun s inv => ?_, fun s => rfl, fun s => rfl, fun cfg sw => rfl⟩
+  cases s with
+  | mk base active padding roi =>
+    cases roi with
+    | none => rfl
+    | some r =>
+      have h := inv r rfl
+      simp [DriftState.save, DriftFile.load, h]
+
+/-- the interpolation order is part of that state: the code before the fix did not store it, and a correction built with
+another order than the constructor's default came back different -/
+theorem curvature_before_fix_loses_order {V : Type} (S : CSem V) (s : CurvState V) (h : s.interpolationOrder ≠ S.one) :
+    s.saveBefore.load S ≠ s := by
+  intro e
+  have := congrArg CurvState.interpolationOrder e
+  simp [CurvState.saveBefore, CurvFile.load] at this
+  exact h this.symm
+
+/-- a drift correction's ROI given as points is turned into a tuple of slices by `_init_from_config`; the invariant of
+`reload_equiv` is what that initialisation establishes (when `bounding_box` returns a tuple of slices) -/
+theorem drift_init_establishes_inv {V : Type} (S : CSem V) (f : DriftFile V)
+    (hb : ∀ r p b, S.isTuple (S.bbox r p b) = true) : (f.load S).Inv S := by
+  intro r hr
+  simp only [DriftFile.load] at hr
+  cases hroi : f.cfgRoi with
+  | none => simp [hroi] at hr
+  | some r0 =>
+    simp [hroi] at hr
+    by_cases ht : S.isTuple r0 = true
+    · simp [ht] at hr; subst hr; exact ht
+    · simp [ht] at hr; subst hr; exact hb _ _ _
 
 /-- non-vacuity: a value domain with well-behaved helpers exists (numbers: 0 = None, 1 = True, 9 = False, ...) and an
 image built by the optical constructor from it satisfies the invariant -/
